@@ -77,6 +77,10 @@ func (db *DB) GetBucket(i uint) (*Bucket, error) {
 	if readErr != nil {
 		return nil, readErr
 	}
+	// The hash length comes from the file; entries are sliced with it (see unmarshalEntry).
+	if int(bucket.HashLen)+int(bucket.OffsetWidth) > int(bucket.Stride) {
+		return nil, fmt.Errorf("corrupt bucket header %d: hash length %d and value size %d exceed entry size %d", i, bucket.HashLen, bucket.OffsetWidth, bucket.Stride)
+	}
 	bucket.Entries = io.NewSectionReader(db.Stream, int64(bucket.FileOffset), int64(bucket.NumEntries)*int64(bucket.Stride))
 	if db.prefetch {
 		// TODO: find good value for numEntriesToPrefetch
@@ -146,7 +150,8 @@ func (b *Bucket) Load(batchSize int) ([]Entry, error) {
 	if b.NumEntries > maxEntriesPerBucket {
 		return nil, fmt.Errorf("refusing to load bucket with %d entries", b.NumEntries)
 	}
-	entries := make([]Entry, 0, b.NumEntries)
+	// NumEntries comes from the file: do not reserve more than one batch up front.
+	entries := make([]Entry, 0, minInt64(int64(b.NumEntries), int64(batchSize)))
 
 	stride := int(b.Stride)
 	buf := make([]byte, batchSize*stride)
